@@ -410,3 +410,63 @@ Example C01_checked_nonvacuous :
   ref_chk 4096 100 96 120 4 = Fault UBOob /\ ref_chk 4098 200 0 64 4 = Fault UBAlign /\ ref_chk 4096 200 0 64 4 = Ok tt /\
   blocks_chk 4098 [0;16;0;0; 12;0;0;0; 5;48; 0;0] = Fault UBAlign.
 Proof. vm_compute. repeat split; reflexivity. Qed.
+
+(* ---- component `util`: WideStr constructors / accessors, strn / wstrn / trimn (Model/Util.v; qualified names) ---- *)
+From PV.Model Require Util.
+From PV.Spec Require UtilSpec.
+From PV.Proofs Require UtilText UtilProofs.
+
+(* WideStr::from_words hands out the prefix of first word + 1 words of the slice it was given; the result satisfies
+   the invariant from_words_unchecked asks for (first word + 1 = number of words) *)
+Theorem C01_util_from_words_region : forall words at_ r, UtilSpec.units_ok words -> Util.from_words words = Ok (Some (at_, r)) ->
+  at_ = 0 /\ (exists rest, words = r ++ rest) /\ lenN r <= lenN words /\ UtilSpec.wide_inv r /\
+  (exists w0, hd_error words = Some w0 /\ lenN r = w0 + 1).
+Proof. exact UtilProofs.from_words_region. Qed.
+Print Assumptions C01_util_from_words_region.
+
+(* <WideStr as FromBytes>::from_bytes under the guarantees of its callers (derva_string / deref_string slice with
+   MIN_SIZE_OF = 2 and ALIGN_OF = 2): the unchecked read and from_raw_parts stay inside the byte slice, aligned *)
+Theorem C01_util_from_bytes_region : forall addr bytes at_ ws, bytes_ok bytes -> aligned_to 2 addr = true -> 2 <= lenN bytes ->
+  Util.from_bytes addr bytes = Ok (Some (at_, ws)) ->
+  at_ = 0 /\ at_ + 2 * lenN ws <= lenN bytes /\ lenN ws = u16_at bytes 0 + 1 /\ UtilSpec.wide_inv ws /\
+  (forall i, i < lenN ws -> nth (N.to_nat i) ws 0 = u16_at bytes (at_ + 2 * i)).
+Proof. exact UtilProofs.from_bytes_region. Qed.
+Print Assumptions C01_util_from_bytes_region.
+
+(* ... and exactly outside those guarantees the accesses are undefined behaviour (UBOob / UBAlign in the model) *)
+Theorem C01_util_from_bytes_faults_iff : forall addr bytes, bytes_ok bytes ->
+  ((exists f, Util.from_bytes addr bytes = Fault f) <-> (aligned_to 2 addr = false \/ lenN bytes < 2)).
+Proof. exact UtilProofs.from_bytes_faults_iff. Qed.
+Print Assumptions C01_util_from_bytes_faults_iff.
+
+Theorem C01_util_from_bytes_unguarded_refuted :
+  Util.from_bytes 4096 [] = Fault UBOob /\ Util.from_bytes 4096 [7] = Fault UBOob /\ Util.from_bytes 4097 [1; 0; 65; 0] = Fault UBAlign.
+Proof. exact UtilProofs.from_bytes_unguarded_refuted. Qed.
+Print Assumptions C01_util_from_bytes_unguarded_refuted.
+
+(* Deref / AsRef (get_unchecked(1..)) is in bounds on the result of every constructor; it is out of bounds exactly on
+   the empty slice, which no constructor produces *)
+Theorem C01_util_as_ref_after_constructors :
+  (forall words at_ r, UtilSpec.units_ok words -> Util.from_words words = Ok (Some (at_, r)) -> exists t, Util.as_ref r = Ok t) /\
+  (forall addr bytes at_ r, bytes_ok bytes -> aligned_to 2 addr = true -> 2 <= lenN bytes ->
+     Util.from_bytes addr bytes = Ok (Some (at_, r)) -> exists t, Util.as_ref r = Ok t) /\
+  (forall checks s buffer r, Util.from_str checks s buffer = Ok r -> exists t, Util.as_ref r = Ok t).
+Proof. exact UtilProofs.as_ref_after_constructors. Qed.
+Print Assumptions C01_util_as_ref_after_constructors.
+
+Theorem C01_util_as_ref_faults_iff : forall words, (exists f, Util.as_ref words = Fault f) <-> words = [].
+Proof. exact UtilProofs.as_ref_faults_iff. Qed.
+Print Assumptions C01_util_as_ref_faults_iff.
+
+(* WideStr::from_str hands the WHOLE buffer to from_words_unchecked: the invariant holds only when the string fills it *)
+Theorem C01_util_from_str_invariant_iff : forall checks s buffer r, Util.from_str checks s buffer = Ok r -> lenN buffer <= 65536 ->
+  (UtilSpec.wide_invb r = true <-> lenN buffer <= lenN (Util.str_encode_utf16 s) + 1).
+Proof. exact UtilProofs.from_str_invariant_iff. Qed.
+Print Assumptions C01_util_from_str_invariant_iff.
+
+(* strn / wstrn / trimn return prefixes of the buffer they were given *)
+Theorem C01_util_strn_trimn_regions : forall buf,
+  (exists r rest, Util.strn buf = Ok r /\ Util.wstrn buf = Ok r /\ buf = r ++ rest) /\
+  (exists r k, Util.trimn buf = Ok r /\ buf = r ++ repeat 0 k).
+Proof. exact UtilProofs.strn_trimn_regions. Qed.
+Print Assumptions C01_util_strn_trimn_regions.
